@@ -84,4 +84,5 @@ def main(tier, replay=None):
     chk.assumptions += ["three exception kinds (TypeError, ValueError, KeyError objects) stand for 'several exception kinds'",
                         "nesting depth stays below the runtime's fixed limit of 2048 try blocks"]
     camp.report()
+    runner.run_pinned(chk, {"h_exc": harness})
     return chk.finish()
